@@ -475,6 +475,7 @@ func main() {
 	// shortens the enumeration without making it vacuous
 	phaseStates()
 	phaseStateOps(1, 1)
+	phaseSizes()
 	phaseSeq(seqDepth)
 	phaseGC()
 	phaseProofs()
@@ -503,6 +504,7 @@ func main() {
 		"seq: all %d-token histories of length 1..%d from the empty trie (tokens: Update(k,short|long|empty), Delete(k), Hash, Commit+flush+reopen-by-root on a new trie database, Commit+reference+dereference-previous+reopen on the same trie database, Copy-and-continue, Get-all)%s, "+
 		"observation = Get of every key, Hash vs independent reference root, re-check of every copied-from trie; "+
 		"stateops: from each of the 3^7 content states in %d representations (fresh, hashed, committed+reopened, descending insertion) every history of length 1..%d; "+
+		"sizes: second family of sibling leaves under a shared prefix (keys 12, 1234, 1254, 1274, +1294 added and deleted again, 50) with value lengths swept (0..40 x 0..40 x {0,1,2,3,5,8} x {0,1,4} x {0,2}): ascending / descending insertion, add-then-delete of a sibling in memory / after Hash / on a reopened trie, StackTrie, each root vs the reference root; guarded: every node kind (leaf, ext, branch2, branch3, branch with value) occurs as a non-root node of exactly 31, 32 and 33 bytes; "+
 		"gc: from each content state R, every Update/Delete, R (reference counting keeps shared nodes); states: per content state StackTrie root/commit, NodeIterator, secure trie; order: every insertion order (3 variants) and every deletion order from the full state; "+
 		"proofs: Prove/VerifyProof for %d probe keys per state in 3 representations and the full tamper matrix (drop, replace by any node of another key's proof, flip first/middle/last byte with 2 masks); "+
 		"range: fixed-length universe, every contiguous range x every left edge x every single-element tampering; derivesha: every list length 0..N x value patterns. "+
